@@ -41,3 +41,11 @@ def runLedger (_inp : List String) (out : String) : Option Res := Id.run do
   return some { agree := !halted, monitor := ok, nontrivial := decide (moved ≥ 2), model := s!"blocks={blocks} moved={moved}", note := note }
 
 end Driver
+
+namespace Driver
+/-- C01 on whole histories: two executions of the same history on fresh chains give the same application hash after every block -/
+def runAppHash (_inp : List String) (out : String) : Option Res :=
+  let eq := out.startsWith "equal"
+  let n := (((out.splitOn "blocks=").getD 1 "").toNat?).getD 0
+  some { agree := true, monitor := eq, nontrivial := decide (n ≥ 10), model := "", note := if eq then "" else (out.take 300).toString }
+end Driver
